@@ -100,6 +100,10 @@ RULE = (
     "(every integer tether row and pair of end columns, half windows -1..2, 0-4 columns cut off the left after the tether, "
     "reduce = sum/max/min, stacks whose frame rate / exposure is not constant, single frames, RGB / two-colour / legacy) with "
     "pixel values, line time, exposure and start compared exactly (op c07.kymo); pixel-calibrated stacks (define_tether in um); "
+    "to_kymo after cropping rows/columns away around a tether given inside pixels (stream kymo-rows: exhaustive on 3 frames of 4x5 - "
+    "tether row in half/quarter pixels, every row crop [top:bottom] and left cut after the tether, half windows 0/1 - and random "
+    "larger stacks with crop bounds at the edges of the reduced window: a tether row or end at a coordinate in (-1, 0)); a stack "
+    "starting exactly at the first instant pylake reads as a timestamp (bounds FIRST_TS-1 / FIRST_TS / FIRST_TS+1); "
     "random horizontal-tether to_kymo (incl. the F20 class: left tether end cropped away, and F20b: both ends); bead stacks (two "
     "Gaussian spots; grey, RGB without alignment metadata, RGB with non-identity Bluelake alignment matrices - shifts of "
     "up to 7 px, small rotations/scalings, alignment-ROI offsets - opened with align=True and align=False) with a tether "
@@ -1649,6 +1653,67 @@ def bead_case(rng, stream, flavour=None, theta=None, pre_crop=None, post=None, s
     raise RuntimeError("bead_case: no admissible geometry found")
 
 
+def kymo_one_pixel(spec, prog):
+    """would `to_kymo` at the end of `prog` cut a window of a single pixel column?  (outside: numpy's squeeze raises an
+    AxisError the property says nothing about)"""
+    try:
+        _, _, cols, geo = simulate(spec, prog[:-1])
+    except Expect:
+        return False
+    if not (geo["defined"] and geo.get("flat")):
+        return False
+    lo = max(math.floor(geo["mid"][0] - geo["len"] / 2), 0)
+    hi = min(math.floor(geo["mid"][0] + geo["len"] / 2) + 1, len(cols))
+    return hi - lo == 1
+
+
+def near(rng, values, lo, hi):
+    """one of `values` (boundary candidates) or a uniform draw, kept within [lo, hi]"""
+    v = rng.choice(list(values) + [rng.randint(lo, hi)])
+    return min(max(v, lo), hi)
+
+
+def kymo_rows_case(rng, subseed):
+    """[frames] [crop] define_tether(horizontal, inside pixels) crop(rows and columns at the edges of the window) to_kymo"""
+    colour = rng.choice(["grey", "grey", "rgb", "two"])
+    h, w, n = rng.randint(3, 8), rng.randint(4, 9), rng.randint(2, 7)
+    spec = bt.make_spec(files=(n,), h=h, w=w, colour=colour, t0=bt.T0, period=rng.choice([100_000_000, 40_000_000]),
+                        exposure=rng.choice([None, 30_000_000]))
+    prog = []
+    if rng.chance(0.3):
+        prog.append(rng.choice([["s", None, None, 2], ["s", 1, None, None], ["s", None, -1, None]]))
+        if len(range(*slice(*prog[0][1:4]).indices(n))) < 2:
+            prog = []
+    cw, chh = w, h
+    if rng.chance(0.3) and w >= 5 and h >= 4:
+        ox, oy = rng.randint(0, 1), rng.randint(0, 1)
+        prog.append(["c", ox, None, oy, None])
+        cw, chh = w - ox, h - oy
+    q = rng.choice([1, 2, 2, 4])
+    x1 = rng.randint(0, (cw - 2) * q) / q
+    x2 = min(x1 + rng.randint(2 * q, max(2 * q, int((cw - x1) * q) - 1)) / q, cw - 1 / q)
+    y = rng.randint(0, chh * q - 1) / q
+    hw = rng.choice([0, 0, 1, 1, 2])
+    prog.append(["T", float(x1), float(y), float(x2), float(y)])
+    row = math.floor(y)
+    top = near(rng, [0, row - hw, row - hw + 1, row - hw - 1, row, row + 1], 0, chh - 1)
+    bot = near(rng, [chh, row + hw + 1, row + hw, row + hw + 2, row + 1, row], top + 1, chh)
+    left = near(rng, [0, 0, 0, math.floor(x1), math.floor(x1) + 1, math.floor(x2), math.floor(x2) + 1], 0, cw - 1)
+    right = near(rng, [cw, cw, cw, math.floor(x2) + 1, math.floor(x2)], left + 1, cw)
+
+    def spell(v, size, is_lo):
+        if v == (0 if is_lo else size) and rng.chance(0.6):
+            return None
+        return v - size if v < size and rng.chance(0.25) else v
+
+    crop = [spell(left, cw, True), spell(right, cw, False), spell(top, chh, True), spell(bot, chh, False)]
+    prog.append(["c"] + crop if rng.chance(0.7) else ["g", [None, None], crop[2:4], crop[0:2]])
+    prog.append(["k", hw] + ([rng.choice(["sum", "max", "min"])] if rng.chance(0.25) else []))
+    if kymo_one_pixel(spec, prog):
+        return None
+    return prog_case("kymo-rows", spec, prog, subseed=subseed)
+
+
 def load_corpus():
     d = os.path.join(VERIF, "corpus", PROP)
     out = []
@@ -1815,12 +1880,14 @@ def cases(tier, rng):
     # ---- time-like bounds, exhaustive small scope: 4 frames (and the stepped stack [::2] of 6), every pair of bounds among
     # None and start/exposure-stop of every visible frame -1/0/+1 ns, as absolute timestamps and as time strings counted
     # from the start (>= 0) and from the stop (< 0) of the current stack
-    tvariants = ((small_spec(4), []), (small_spec(6), [["s", None, None, 2]]), (small_spec(6), [["s", 1, 5, None]]))
-    for tspec, pre in (tvariants[:2] if quick else tvariants):
+    # (round H) a stack that starts exactly at the first instant pylake reads as a timestamp (2014-01-01; smaller integers are
+    # frame indices): the bounds FIRST_TS - 1 / FIRST_TS / FIRST_TS + 1 are the two sides of that decision
+    tvariants = ((small_spec(4), []), (small_spec(6), [["s", None, None, 2]]), (small_spec(2, t0=FIRST_TS), []), (small_spec(6), [["s", 1, 5, None]]))
+    for tspec, pre in (tvariants[:3] if quick else tvariants):
         table = bt.page_table(tspec)
         vis = list(range(sum(tspec["files"])))[slice(*pre[0][1:4])] if pre else list(range(sum(tspec["files"])))
         # a frame is selected when a <= start and exposure stop < b: 0 / +1 ns are the two sides of either comparison
-        marks = sorted({table[p][k] + d for p in vis for k in (0, 2) for d in ((0, 1) if quick else (-1, 0, 1))})
+        marks = sorted({table[p][k] + d for p in vis for k in (0, 2) for d in ((0, 1) if quick and tspec["t0"] != FIRST_TS else (-1, 0, 1))})
         first, last = table[vis[0]][0], table[vis[-1]][2]
         absb = [None] + marks
         for a, b in itertools.product(absb, absb):
@@ -1897,6 +1964,34 @@ def cases(tier, rng):
             for hw in (0, 1):
                 yield prog_case("kymo-exhaustive", spec, pre + [["T", 1.0, 1.0, 3.0, 1.0], ["k", hw]])
             yield prog_case("kymo-exhaustive", spec, pre + [["k", 0]])
+
+    # ---- to_kymo after cropping ROWS and columns away around a tether given INSIDE pixels (round H; seeded change C07g-m3:
+    # `int(x)` for `floor(x)` differs exactly where a later crop leaves the tether at a coordinate in (-1, 0)).  Exhaustive on
+    # 3 frames of 4x5: tether row y in steps of half a pixel (and two quarter positions), three pairs of end columns (integer
+    # and inside pixels), half windows 0/1, every crop of the rows [top:bottom] after the tether (the tether row kept, first /
+    # last row of the window kept or cut, the whole tether row cut away above or below), columns cut off the left so that an
+    # end comes to lie in (-1, 0)
+    for y4 in (0, 2, 3, 4, 6, 8, 10, 11, 12, 14):
+        y = y4 / 4
+        for xa, xb in ((1.0, 3.0), (0.5, 3.5), (1.5, 4.5), (0.25, 1.75)):
+            for hw in (0, 1):
+                crops = [["c", None, None, top, bot] for top in (None, 1, 2, 3) for bot in (None, 1, 2, 3, -1) if (top or 0) < (4 + bot if (bot or 0) < 0 else (bot or 4))]
+                crops += [["c", cut, None, None, None] for cut in (1, 2, 3, 4)] + [["c", 1, None, 1, -1], ["g", [None, None], [2, None], [2, None]]]
+                for crop in crops:
+                    prog = [["T", xa, y, xb, y], crop, ["k", hw]]
+                    if not kymo_one_pixel(kspec, prog):
+                        yield prog_case("kymo-rows", kspec, prog)
+    # the same class at random: larger stacks and colours, crop before the tether, frame selections, crop bounds drawn at the
+    # edges of the reduced window (tether row -/+ half window, one more, one less), spelled with None / negative bounds
+    KR = 250 if quick else 2500
+    r = rng.fork("c07-kymo-rows")
+    for i in range(KR):
+        sub = r.fork(i)
+        for _ in range(20):
+            case = kymo_rows_case(sub, i)
+            if case is not None:
+                yield case
+                break
 
     # ---- horizontal tethers and kymographs
     K = 200 if quick else 2000
